@@ -147,7 +147,7 @@ Proof.
     repeat split; auto.
     - apply s_builder_drop_ok in H. rewrite Hok in H. apply andb_true_iff in H. tauto.
     - apply s_builder_drop_ok in H. rewrite Hok in H. apply andb_true_iff in H. rewrite !andb_true_r. tauto. }
-  destruct o as [c|c|n| |n|built c|c|h|hs|h| | |h|h| |h| |so| | ]; cbn [sstep_core micro is_creation is_obs].
+  destruct o as [c|c|n| |n|built c|c|h|hs|h| | |h|h| |h| |so| |lsid lh lv|lsid ll|lsid lh|prog|qso| ]; cbn [sstep_core micro is_creation is_obs].
   - specialize (Hone false (hd_choice cs)). destruct (s_create false sw (hd_choice cs)) as [w1 e]. cbn [fst snd].
     destruct Hone as [H1 [H2 [H3 H4]]]. envn. fin.
   - specialize (Htwo false (hd_choice cs)). destruct (s_create false sw (hd_choice cs)) as [w1 e]. cbn [fst snd].
@@ -184,6 +184,11 @@ Proof.
   - destruct (hget (s_hs sw) h); cbn; fin.
   - cbn; fin.
   - destruct (env_sop (s_env sw) (l_view (s_life sw)) (s_hs sw) so) as [e' out]. cbn; fin.
+  - cbn; fin.
+  - destruct (hget (s_hs sw) lh); cbn; fin.
+  - destruct (hget_all (s_hs sw) (map fst ll)); cbn; fin.
+  - destruct (hget (s_hs sw) lh); cbn; fin.
+  - cbn; fin.
   - cbn; fin.
   - cbn; fin.
 Qed.
